@@ -209,21 +209,45 @@ class Workload:
         # is sensitive to), at the start, on a line of their own, inline, inside a literal / comment, and at the end
         if self.n_runs:
             units = ['-', '--', '-- ', '/*', '*/', '*', '/', "'", '"', '`', ';', ' ', '\n', '\t', '\r\n', '(', ')', '--x\n', '; ', '\\', '@', '#', 'a', '1', '.',
-                     'e', ',', '- ', "''", '""', '/**/', '=', '%', '1e', '0.', ' ;', '\\\'', 'é', '\u00a0', '_', '$', ':', '?', '!', '<', '>', '|', '&', '~', '^', '[', ']', '{', '}']
+                     'e', ',', '- ', "''", '""', '/**/', '=', '%', '1e', '0.', ' ;', '\\\'', 'é', '\u00a0', '_', '$', ':', '?', '!', '<', '>', '|', '&', '~', '^', '[', ']', '{', '}',
+                     '\\\\', '\\a', '\\"', "\\''", '\\\n']
             stmts = ['select 1', 'select a from t where b = 1', "select 'x' from t", 'show tables', 'create view v as (select 1)', 'insert into t (a) values (1)']
-            places = ['prefix', 'suffix', 'own-line', 'inline', 'in-string', 'in-dq', 'in-bq', 'in-comment', 'in-line-comment', 'tail-after-semicolon']
+            places = ['prefix', 'suffix', 'own-line', 'inline', 'in-string', 'in-dq', 'in-bq', 'in-comment', 'in-line-comment', 'tail-after-semicolon',
+                      # a quoted lexeme / comment that is opened and never closed: the lexer must refuse it without trying every way of
+                      # reading the run (overlapping alternatives inside a repetition)
+                      'open-string', 'open-dq', 'open-bq', 'open-comment', 'open-var', 'open-string-mid']
             k = 0
             for j in range(self.n_runs):
                 r = core.rng_for(ctx.seed, 'parsework', 'runs', j)
                 u = units[j % len(units)]
                 place = places[(j // len(units)) % len(places)]
-                n = r.choice([30, 36, 40, 64, 120, 300]) if place not in ('in-string', 'in-dq', 'in-bq', 'in-comment', 'in-line-comment') or j % 3 else r.choice([1000, 3000])
+                n = r.choice([30, 36, 40, 64, 120, 300]) if (place not in ('in-string', 'in-dq', 'in-bq', 'in-comment', 'in-line-comment') and not place.startswith('open-')) or j % 3 else r.choice([1000, 3000])
                 st, st2 = r.choice(stmts), r.choice(stmts)
                 run = u * n
                 t = {'prefix': run + ' ' + st, 'suffix': st + ' ' + run, 'own-line': st + '\n' + run + '\n' + st2, 'inline': st + ' ' + run + ' ' + st2[7:],
                      'in-string': "select '" + run + "' from t", 'in-dq': 'select "' + run + '" from t', 'in-bq': 'select `' + run + '` from t',
-                     'in-comment': 'select /*' + run + '*/ 1', 'in-line-comment': 'select 1 --' + run + '\nfrom t', 'tail-after-semicolon': st + ';' + run}[place]
+                     'in-comment': 'select /*' + run + '*/ 1', 'in-line-comment': 'select 1 --' + run + '\nfrom t', 'tail-after-semicolon': st + ';' + run,
+                     'open-string': "select '" + run, 'open-dq': 'select "' + run, 'open-bq': 'select `' + run, 'open-comment': 'select 1 /*' + run,
+                     'open-var': "select @'" + run, 'open-string-mid': "select a from t where b = 'x" + run + ' and c = 1'}[place]
                 d = self.dialects[j % len(self.dialects)]
                 if ctx.mine(idx):
                     yield idx, 'runs:' + place, d, t
                 idx += 1
+            # class 9: numbers of very many digits (more than the interpreter converts between text and int: 4300 by default), as
+            # integers, before / after a decimal point, with a sign, in every position that takes a number
+            forms = [lambda x: x, lambda x: x + '.5', lambda x: '0.' + x, lambda x: '-' + x, lambda x: x + '.' + x, lambda x: '1.' + x + 'e5', lambda x: 'a' + x, lambda x: x + 'a']
+            slots = ['select %s', 'select a from t where b = %s', 'select a from t limit %s', 'select a from t limit 1 offset %s', 'insert into t (a) values (%s)',
+                     'select a from t where b in (1, %s)', 'update t set a = %s', 'select f(%s)', 'select a from t where b between %s and 2', 'select cast(a as decimal(%s))',
+                     'select * from m.%s', 'set x = %s', 'select -%s']
+            lens = [4299, 4300, 4301, 5000, 8600, 20000]
+            j = 0
+            for ln in lens:
+                for fi, form in enumerate(forms):
+                    for si, slot in enumerate(slots):
+                        r = core.rng_for(ctx.seed, 'parsework', 'digits', j)
+                        digit = r.choice('123456789')
+                        d = self.dialects[j % len(self.dialects)]
+                        j += 1
+                        if ctx.mine(idx):
+                            yield idx, 'runs:digits', d, slot % form(digit * ln)
+                        idx += 1
